@@ -112,6 +112,8 @@ WhySVerify(c) == IF SValid(c) /\ ~c.accepted THEN "rejects-valid-signature"
 
 Why(c) == CASE c.kind = "esign" -> WhyESign(c) [] c.kind = "everify" -> WhyEVerify(c)
             [] c.kind = "ssign" -> WhySSign(c) [] c.kind = "sverify" -> WhySVerify(c)
+            [] c.kind = "der" -> (IF c.der # Der(c.r, c.s) THEN "der-encoding-differs"       \* every byte-length / top-bit shape of r and s
+                                  ELSE IF ~c.parsed_ok \/ ~Eq(c.pr, c.r) \/ ~Eq(c.ps, c.s) THEN "der-does-not-round-trip" ELSE "")
 VARIABLES i, bad
 Init == i = 1 /\ bad = <<>>
 Next == /\ i <= NCases /\ i' = i + 1
